@@ -67,6 +67,14 @@ func (ex *Exec) upper(t *Term) *big.Int {
 		}
 		return new(big.Int).Add(t.val, bi(1))
 	}
+	if bd, ok := ex.st.bind[t]; ok && bd != t {
+		// a result variable that a callee's postcondition defines by an equation
+		if u := ex.upper(bd); u != nil {
+			if r, ok := ex.st.ranges[t]; !ok || u.Cmp(r) < 0 {
+				return u
+			}
+		}
+	}
 	if b, ok := ex.st.ranges[t]; ok {
 		return b
 	}
